@@ -57,12 +57,25 @@ class ParseMCNPCell:
         self.mcnp_parser = mcnp_parser
         self.cell_cache_path = cell_cache_path
         self.lattice_params = lattice_params.copy()
+        self.check_cell_parameter_cards()
         self.importances = self.parse_importance_cards()
         self.transforms = get_mcnp_transforms(self.mcnp_parser)
         for transform in self.transforms.values():
             if len(transform) == 13 and int(transform[-1]) != 1:
                 raise NotImplementedError('affine transformations with m!=1 '
                                           'are not supported yet')
+
+    def check_cell_parameter_cards(self):
+        '''Cell parameters that shape the geometry may also be given on data
+        cards (``U``, ``FILL``, ``LAT``, ``TRCL``, one entry per cell). These
+        cards are not read: stop instead of converting another geometry.'''
+        for card in self.mcnp_parser.cards(blocks='d', skipcomments=True):
+            card_type = card.parts()[1].strip().lstrip('*').lower()
+            if card_type in ('u', 'fill', 'lat', 'trcl'):
+                msg = (f'cell parameters on a {card_type.upper()} data card '
+                       'are not supported; please give them on the cell '
+                       'cards')
+                raise ParseMCNPCellError(msg)
 
     def parse_importance_cards(self):
         '''Parse any importance cards and return the maximum importance value
